@@ -99,6 +99,9 @@ def gen_zero_answers():
         for handler in ("0", "1", "2", "3"):
             cases.append("Q %s %s E0,Rz,S,E0,E0,Rz,Re5,S,E0,Rz,Rp,E0,Rz,S,D0" % (cap, handler))
             cases.append("Q %s %s E0,Rz,E0,Rz,E0,Rz,S,C0,D0,E1,Rz,D1" % (cap, handler))
+            # ... or Ok(n) for some other n: a count of datagrams, the bytes of a truncated send, more than the length
+            cases.append("Q %s %s E0,Rn1,S,E0u,E0,Rn2,Rn3,S,E0l,Rn1000,C0,E1,Rn4,E0,Rn999999,S,D0,D1" % (cap, handler))
+            cases.append("Q %s %s E0,E0,Rn1,Re5,E0u,Rn5,Rp,E0,Rn2,S,D0" % ("u" if cap == "1" else cap, handler))
     return cases
 
 
@@ -304,16 +307,32 @@ def as_plain_drop(case):
     """U<h> (the handle is dropped by a thread that is unwinding) is an ordinary drop for the model and the clauses"""
     import re
     t = case.split(" ")
+    if t[0] == "QD":                # another queuing sink lives in the process: nothing to the model or the clauses
+        t = ["Q"] + t[2:]
     if t[0] == "Q":
         t[2] = {"2": "1", "3": "0"}.get(t[2], t[2])        # how the sink was constructed: with or without a handler
         t[3] = re.sub(r"U(\d+)", r"D\1", t[3])
         t[3] = re.sub(r"E(\d+)[elus]", r"E\1", t[3])      # the payload's shape is nothing to the model or the clauses
         t[3] = re.sub(r"\bRz\b", "Rk", t[3])             # accepted is accepted, whatever count the wrapped sink answers
+        t[3] = re.sub(r"\bRn\d+\b", "Rk", t[3])
         t[3] = re.sub(r"\bRo(\d+)\b", lambda m: "Re%d" % (2000 + int(m.group(1))), t[3])   # an OS error is an error
     return " ".join(t)
 
 
+def decoy_verdicts(y):
+    """QD cases: what became of the other queuing sink of the process"""
+    out = []
+    if y != "ok":
+        for part in y.split(" / "):
+            pid = "C09" if "did not stop" in part else ("C10" if "refused" in part else "C08")
+            out.append((pid, "with two queuing sinks in one process: " + part[:300]))
+    return out
+
+
 def judge(case, obs):
+    if "|Y:" in obs:
+        obs, y = obs.split("|Y:", 1)
+        return judge(case, obs) + decoy_verdicts(y)
     case = as_plain_drop(case)
     """evaluate the clauses of C08..C11, C15, C16 on the implementation's observation of a scripted history;
     returns a list of (property id, message)"""
@@ -452,10 +471,19 @@ def run_queue_check(prop, tier, seed):
     cases += gen_zero_answers()
     cases += gen_os_errors()
     cases += gen_random(rng, 60000 if thorough else 400, 40)
+    # every 9th scripted history once more with ANOTHER queuing sink alive in the process (full with its stop pending /
+    # respawned after a panic): sinks share nothing
+    scripted = [c for c in cases if c.startswith("Q ")]
+    for k, c in enumerate(scripted[::9] + [c for c in scripted if ",D" in c and ",f" not in c][:200:3]):
+        cases.append("QD %d %s" % (1 + k % 2, c[2:]))
     soak = gen_soak(rng, 300 if thorough else 12, thorough)
     sched = gen_schedules(8 if thorough else 6, [1, 2, None], rng, 30000 if thorough else 300, 30)
     try:
         impl = common.run_harness("queue", cases, shards=common.NCPU)
+        decoy = {}
+        for i, o in enumerate(impl):
+            if cases[i].startswith("QD ") and "|Y:" in o:
+                impl[i], decoy[i] = o.split("|Y:", 1)
         model = common.run_model("queue", [as_plain_drop(c) for c in cases])
         simpl = common.run_harness("queue", soak, shards=min(4, len(soak)))
         hmodel = common.run_model("queue", sched)
@@ -471,8 +499,8 @@ def run_queue_check(prop, tier, seed):
     if dis_idx:
         again = common.run_harness("queue", [cases[i] for i in dis_idx], shards=min(common.NCPU, len(dis_idx)))
         for i, o in zip(dis_idx, again):
-            if o == model[i]:
-                impl[i] = o
+            if o.split("|Y:")[0] == model[i]:
+                impl[i] = o.split("|Y:")[0]
         rep.cov["rerun_after_disagreement"] = len(dis_idx)
     hdis_idx = [i for i, (a, b) in enumerate(zip(himpl, hmodel)) if a != b]
     if hdis_idx:
@@ -487,6 +515,11 @@ def run_queue_check(prop, tier, seed):
         for pid, msg in judge(c, o):
             if pid == prop:
                 failures.append((len(c), c, o, msg))
+    for i, y in decoy.items():
+        for pid, msg in decoy_verdicts(y):
+            if pid == prop:
+                failures.append((len(cases[i]), cases[i], impl[i] + "|Y:" + y, msg))
+    rep.cov["two_sink_cases"] = len(decoy)
     for c, o in zip(sched, himpl):
         for pid, msg in judge_schedule(c, o):
             if pid == prop:
@@ -547,7 +580,7 @@ def run_queue_check(prop, tier, seed):
     nt = set()
     dist = {"actions": 0, "full": 0, "panics": 0, "errors": 0, "last_drop": 0, "caps": {}}
     for c, o in zip(cases, impl):
-        t = c.split()
+        t = as_plain_drop(c).split()
         dist["caps"][t[1]] = dist["caps"].get(t[1], 0) + 1
         dist["actions"] += t[3].count(",") + 1
         dist["full"] += o.count(",f") + o.count(":f")
